@@ -48,7 +48,9 @@ sys.path.insert(0, os.path.dirname(HERE))   # tools/
 
 PROPERTY = 'C13'
 PYTHON = '/venv/bin/python' if os.path.exists('/venv/bin/python') else sys.executable
-CHILD_CODE = 'import sys; sys.path.insert(0, %r); import c13; c13.child_main()' % HERE
+REPO = os.environ.get('VERIF_REPO', '/repo')
+# children see the same tree as tools/common.py (VERIF_REPO first on sys.path), then this directory
+CHILD_CODE = 'import sys; sys.path.insert(0, %r); sys.path.insert(0, %r); import c13; c13.child_main()' % (REPO, HERE)
 
 RULE = (
     'descriptors: every public function with the single required parameter `number` of every number module '
@@ -59,6 +61,11 @@ RULE = (
     'was compared under at least one non-fresh condition')
 
 NETWORK_PREFIXES = ('check_', 'search_')
+# root cause label of: util.get_cc_module() returning None for an existing module while another thread is finishing the
+# first import of that module (CPython publishes the submodule in sys.modules, clears `_initializing`, and only then binds
+# it as attribute of the package; get_cc_module uses getattr(package, name, None)), the None then being cached for the
+# life of the process by iban/eu.vat/vatin._get_cc_module
+SITE_GETCC = 'stdnum/util.py:get_cc_module:return getattr(mod, name, None)'
 # modules through which the library itself lazily imports country packages / opens registries
 ENTRY_MODULES = ('stdnum.iban', 'stdnum.eu.vat', 'stdnum.vatin', 'stdnum.util', 'stdnum.numdb')
 # top-level modules (parent package = stdnum only) that open registries lazily; not pre-imported in the lazy flavour
@@ -275,7 +282,97 @@ def child_threads(req):
         t.start()
     for t in threads:
         t.join(timeout=req.get('timeout', 120))
-    return {'outs': results, 'traces': TRACES, 'diag': diag}
+    return {'outs': results, 'traces': TRACES, 'diag': diag, 'poisoned': poisoned_caches()}
+
+
+def poisoned_caches():
+    """entries None in a country-module cache although the module exists (checked now, single-threaded)"""
+    import importlib
+    bad = []
+    for modname, attr in (('stdnum.iban', 'iban'), ('stdnum.eu.vat', 'vat'), ('stdnum.vatin', 'vat')):
+        mod = sys.modules.get(modname)
+        if mod is None:
+            continue
+        for cc, m in sorted(getattr(mod, '_country_modules', {}).items()):
+            if m is None and importlib.import_module('stdnum.util').get_cc_module(cc, attr) is not None:
+                bad.append([modname, cc, attr])
+    return bad
+
+
+def child_schedule(req):
+    """Forced schedule (a scheduler emulation, not a change of the code under test): thread A performs the first
+    import of stdnum.<cc>.<name> and is held — by a trace function — at the point inside importlib where the module is
+    already published in sys.modules with `_initializing` false but not yet bound as attribute of the package; thread B
+    then uses the library.  A real scheduler can switch threads at exactly that point."""
+    import importlib
+    import threading
+    import stdnum.util
+    for m in req.get('preimport', []):
+        importlib.import_module(m)
+    target = req['target']          # full module name, e.g. stdnum.gb.vat
+    e1, e2 = threading.Event(), threading.Event()
+    res = {'window_reached': False}
+
+    def tracer(frame, event, arg):
+        co = frame.f_code
+        if co.co_name == '_find_and_load_unlocked' and 'importlib' in co.co_filename:
+            def local(frame, event, arg):
+                if event == 'line' and frame.f_locals.get('name') == target and 'module' in frame.f_locals and not e1.is_set():
+                    res['window_reached'] = True
+                    e1.set()
+                    e2.wait(3)    # (B blocks on the package lock when the package __init__ itself performs this import)
+                return local
+            return local
+        return None
+
+    def thread_a():
+        sys.settrace(tracer)
+        try:
+            importlib.import_module(target)
+        finally:
+            sys.settrace(None)
+            e1.set()
+
+    def thread_b():
+        e1.wait(20)
+        m = sys.modules.get(target)
+        res['published'] = m is not None and not getattr(m.__spec__, '_initializing', False)
+        res['get_cc_module_is_None'] = stdnum.util.get_cc_module(req['cc'], req['name']) is None
+        res['during'] = [evaluate(d)[0] for d in req['consumers']]
+        e2.set()
+    a, b = threading.Thread(target=thread_a), threading.Thread(target=thread_b)
+    a.start()
+    b.start()
+    a.join(30)
+    b.join(30)
+    res['after'] = [evaluate(d)[0] for d in req['consumers']]
+    res['poisoned'] = poisoned_caches()
+    return res
+
+
+def child_getcc(req):
+    """all threads ask util.get_cc_module for the same (cc, name) at the same time, first use"""
+    import threading
+    sys.setswitchinterval(1e-6)
+    import stdnum.util
+    n = req['nthreads']
+    barrier = threading.Barrier(n)
+    seen = {}
+    lock = threading.Lock()
+
+    def work(i):
+        barrier.wait(timeout=30)
+        for cc, name in req['pairs']:
+            m = stdnum.util.get_cc_module(cc, name)
+            with lock:
+                seen.setdefault(cc + '/' + name, set()).add(m is None)
+    threads = [threading.Thread(target=work, args=(i,)) for i in range(n)]
+    for t in threads:
+        t.start()
+    for t in threads:
+        t.join(timeout=60)
+    return sorted(k for k, v in seen.items() if len(v) == 2)
+
 
 
 def child_alias(req):
@@ -306,7 +403,7 @@ def child_alias(req):
 def child_main():
     req = json.loads(sys.stdin.read())
     mode = req['mode']
-    res = {'ref': child_ref, 'history': child_history, 'threads': child_threads, 'alias': child_alias}[mode](req)
+    res = {'ref': child_ref, 'history': child_history, 'threads': child_threads, 'alias': child_alias, 'getcc': child_getcc, 'schedule': child_schedule}[mode](req)
     sys.stdout.write(json.dumps(res))
     sys.stdout.flush()
 
@@ -575,6 +672,7 @@ def search(seed, tier):
         distribution['conditions']['reference (fresh process per call)'] = n
 
     compared = set()
+    phases = {'reference': round(time.time() - t0, 1)}
 
     def check(d, o, condition, history):
         k = dkey(d)
@@ -624,6 +722,7 @@ def search(seed, tier):
                                history=[short(x) for x in prefix],
                                extra={'history_length_before_minimisation': i, 'minimised_history_reproduces': confirmed}))
 
+    phases['history'] = round(time.time() - t0, 1)
     # ---- threads
     n = 0
     thread_runs = []
@@ -653,7 +752,7 @@ def search(seed, tier):
             thread_runs.append({'mode': 'threads', 'flavour': 'lazy', 'nthreads': nthreads, 'plans': plans, 'seed': seed + rep,
                                 'mutate': bool(rep % 2), 'timeout': 150, 'preimport': ['stdnum'] + sorted(ENTRY_MODULES)})
     cold_runs = [dict(tr, preimport=[], flavour='cold') for tr in thread_runs if tr['flavour'] == 'threads' and not tr['mutate']]
-    results = run_parallel(thread_runs + cold_runs, workers=6, timeout=240)
+    results = run_parallel(thread_runs + cold_runs, workers=14, timeout=240)
     cold = {'runs': 0, 'runs_with_deviation': 0, 'deviating_outcomes': {}, 'example_traceback': None}
     for req, r in zip(cold_runs, results[len(thread_runs):]):
         cold['runs'] += 1
@@ -681,6 +780,14 @@ def search(seed, tier):
             continue
         cnt = 0
         traces = r['result'].get('traces', {})
+        poisoned = r['result'].get('poisoned') or []
+        if poisoned and SITE_GETCC not in seen_sites:
+            seen_sites.add(SITE_GETCC)
+            modname, cc, attr = poisoned[0]
+            failing.append(case_of({'module': 'stdnum.util', 'function': 'get_cc_module', 'args': [cc, attr]},
+                                   'returned None during concurrent first use (%s); %s._country_modules[%r] is None for the rest of the process'
+                                   % (label, modname, cc), 'the country module', 'country-module cache holds None for an existing module',
+                                   SITE_GETCC, extra={'threads': req['nthreads'], 'flavour': req['flavour'], 'poisoned': poisoned}))
         import_lock['runs'] += 0 if lazy else 1
         had_deadlock = False
         for i, outs in enumerate(r['result']['outs']):
@@ -705,6 +812,10 @@ def search(seed, tier):
                         import_lock['example'] = {'call': short(d), 'threads': req['nthreads'], 'traceback': tb}
                     continue
                 site = 'c13:threads:%s.%s' % (d['module'], d['function'])
+                if poisoned and (d['module'] in ENTRY_MODULES or d['module'].endswith('.iban')):
+                    site = SITE_GETCC      # consequence of the poisoned cache reported above
+                if d['module'] == 'stdnum.util' and d['function'] == 'get_cc_module' and o == ['ok', 'null']:
+                    site = SITE_GETCC
                 if site not in seen_sites:
                     seen_sites.add(site)
                     failing.append(case_of(d, show(o) + ' (%s, thread %d)' % (label, i), show(ref[dkey(d)]),
@@ -716,6 +827,87 @@ def search(seed, tier):
     distribution['import_lock_in_caller_imports'] = import_lock
     cases += n
 
+    phases['threads'] = round(time.time() - t0, 1)
+    # ---- get_cc_module first-use probe (many fresh processes, all threads ask for the same module at once)
+    import stdnum.util as _u
+    pairs = []
+    for cc in sorted({m.__name__.split('.')[1] for m in common.number_modules() if m.__name__.count('.') == 2}):
+        for nm in ('vat', 'iban'):
+            if _u.get_cc_module(cc.rstrip('_'), nm) is not None:
+                pairs.append([cc.rstrip('_'), nm])
+    n_probe = 96 if tier == 'quick' else 640
+    rs = run_parallel([{'mode': 'getcc', 'nthreads': 16, 'pairs': pairs} for _ in range(n_probe)], workers=16, timeout=120)
+    hits = {}
+    for r in rs:
+        if 'error' in r:
+            harness_errors.append('getcc probe: ' + r['error'])
+            continue
+        cases += len(pairs) * 16
+        for k in r['result']:
+            hits[k] = hits.get(k, 0) + 1
+    distribution['conditions']['get_cc_module first-use probe (%d fresh processes x 16 threads x %d modules)' % (n_probe, len(pairs))] = n_probe * len(pairs) * 16
+    distribution['get_cc_module_probe'] = {'processes': n_probe, 'processes_with_None_for_existing_module': sum(1 for r in rs if r.get('result')), 'modules': hits}
+    if hits and SITE_GETCC not in seen_sites:
+        seen_sites.add(SITE_GETCC)
+        k = sorted(hits)[0]
+        cc, nm = k.split('/')
+        failing.append(case_of({'module': 'stdnum.util', 'function': 'get_cc_module', 'args': [cc, nm]},
+                               'returns None in some threads and the module in others when 16 threads ask for it at once in a fresh process '
+                               '(%d of %d processes; modules hit: %s)' % (sum(1 for r in rs if r.get('result')), n_probe, ', '.join(sorted(hits))),
+                               'the module, in every thread', 'get_cc_module under concurrent first use', SITE_GETCC,
+                               extra={'threads': 16, 'flavour': 'getcc-probe'}))
+
+    phases['getcc_probe'] = round(time.time() - t0, 1)
+    # ---- forced schedule: the window between publishing a submodule and binding it on its package
+    real = []
+    for cc, nm in pairs:
+        pkg = cc + '_' if cc in ('in', 'is', 'if') else cc
+        m = _u.get_cc_module(cc, nm)
+        if m.__name__ == 'stdnum.%s.%s' % (pkg, nm):      # a real submodule, not an alias bound by the package __init__
+            real.append((cc, nm, m.__name__))
+    reqs = []
+    for cc, nm, target in real:
+        code = {'gr': 'el'}.get(cc, cc)
+        if nm == 'vat':
+            cons = [d for d in descs if d['module'] in ('stdnum.vatin', 'stdnum.eu.vat') and d['function'] in ('validate', 'is_valid', 'compact')
+                    and d['args'] and d['args'][0][:2].lower() in (cc, code)]
+        else:
+            cons = [d for d in descs if d['module'] == 'stdnum.iban' and d['function'] in ('validate', 'is_valid') and d['args'][0][:2].lower() == cc]
+        reqs.append({'mode': 'schedule', 'cc': cc, 'name': nm, 'target': target, 'consumers': cons[:8],
+                     'preimport': ['stdnum', 'stdnum.iban', 'stdnum.vatin', 'stdnum.eu.vat']})
+    rs = run_parallel(reqs, workers=16, timeout=120)
+    sched = {'modules': len(reqs), 'window_reached': 0, 'get_cc_module_None': [], 'persistent_wrong_outcomes': 0}
+    witnesses = []
+    for req, r in zip(reqs, rs):
+        if 'error' in r:
+            harness_errors.append('schedule probe: ' + r['error'])
+            continue
+        res = r['result']
+        cases += 1 + 2 * len(req['consumers'])
+        sched['window_reached'] += bool(res.get('window_reached'))
+        if res.get('get_cc_module_is_None'):
+            sched['get_cc_module_None'].append('%s/%s' % (req['cc'], req['name']))
+            wrong = [(d, o) for d, o in zip(req['consumers'], res['after']) if ref.get(dkey(d)) is not None and o != ref[dkey(d)]]
+            sched['persistent_wrong_outcomes'] += len(wrong)
+            witnesses.append((req, res, wrong))
+    distribution['forced_schedule_probe'] = sched
+    distribution['conditions']['forced schedule (first import of a country submodule held before it is bound on its package)'] = sum(
+        1 + 2 * len(q['consumers']) for q in reqs)
+    if witnesses:
+        req, res, wrong = sorted(witnesses, key=lambda w: -len(w[2]))[0]
+        extra = {'flavour': 'forced-schedule', 'threads': 2, 'affected_modules': sched['get_cc_module_None'], 'poisoned': res.get('poisoned'),
+                 'schedule': 'thread A: first import of %s, suspended after the module is in sys.modules with _initializing False and before '
+                             'setattr(package, %r, module); thread B: the call' % (req['target'], req['name']),
+                 'consequences': [{'call': short(d), 'observed_later_in_same_process': show(o), 'fresh': show(ref[dkey(d)])} for d, o in wrong[:6]]}
+        c = case_of({'module': 'stdnum.util', 'function': 'get_cc_module', 'args': [req['cc'], req['name']]},
+                    'returns None although %s exists; %d later calls through iban/eu.vat/vatin in the same process give a different outcome than in a '
+                    'fresh process (None is cached in _country_modules)' % (req['target'], len(wrong)),
+                    'the module %s' % req['target'], 'get_cc_module under concurrent first use', SITE_GETCC, extra=extra)
+        failing[:] = [f for f in failing if f.get('site') != SITE_GETCC]
+        failing.append(c)
+        seen_sites.add(SITE_GETCC)
+
+    phases['forced_schedule'] = round(time.time() - t0, 1)
     # ---- aliasing scan
     containerish = [d for d in descs if ref.get(dkey(d), ['err'])[0] == 'ok' and ('["dict"' in ref[dkey(d)][1] or '["list"' in ref[dkey(d)][1]
                                                                                or '["tuple"' in ref[dkey(d)][1] or '["set"' in ref[dkey(d)][1])]
@@ -739,6 +931,8 @@ def search(seed, tier):
                                    'no aliasing', site))
     cases += n
     distribution['conditions']['alias scan (calls returning containers, each twice)'] = n
+    phases['alias'] = round(time.time() - t0, 1)
+    distribution['phase_end_seconds'] = phases
     distribution['container_returning_descriptors'] = len(containerish)
     distribution['reference_outcomes'] = {'ok': sum(1 for o in ref.values() if o[0] == 'ok'), 'err': sum(1 for o in ref.values() if o[0] == 'err')}
     for e in sorted(set(harness_errors)):
